@@ -38,6 +38,9 @@ TABLE = {
     "C08": [_mk("B08", "random sequences of full build / incremental build / removal on a builder and on a pool against a reference model (existence, count, salience, description, sort-model order, versions)",
                 "150 builder sequences x 12 operations and 76 pool sequences x 10 operations over 6 rule names per seed",
                 lambda repo, seed: adapters.run_merge_battery(repo, seed=seed or 1, count=150))],
+    "C10": [_mk("B10", "totality (no panic), agreement of the five compile entry points and all-or-nothing on mutated rule texts; covers the clause no contract decides: that the ANTLR recogniser and the listener return normally on arbitrary text",
+                "600 mutated texts (1-3 character / token mutations of three valid texts) per seed",
+                lambda repo, seed: adapters.run_compile_battery(repo, seed=seed or 1, count=600))],
     "C16": [_mk("B16", "random pool management sequences (full, incremental, removal, clear) against a reference model; queries and executions on three overlapping requests",
                 "76 pool sequences x 10 operations per seed",
                 lambda repo, seed: adapters.run_merge_battery(repo, seed=(seed or 1) + 100, count=150))],
